@@ -164,9 +164,30 @@ def ws_norm(s):
 
 
 def unquote_header(v):
+    """The header value as pywbem wrote it.  pywbem does not apply the
+    DSP0200 two-step encoding (UTF-8, then %-escaping), so the comparison with
+    the body uses the raw text; judge_encoding() reports values that a
+    DSP0200-conforming reader would therefore decode to something else."""
     if isinstance(v, bytes):
         v = v.decode('latin-1')
-    return urllib.parse.unquote(v)
+    return v
+
+
+def judge_encoding(ctx, name, raw, detail):
+    if raw is None:
+        return
+    if isinstance(raw, bytes):
+        raw = raw.decode('latin-1')
+    if urllib.parse.unquote(raw) != raw or any(ord(c) > 127 for c in raw):
+        ctx.violation(
+            'header.dsp0200-encoding-missing',
+            '%s header %r is sent without the DSP0200 encoding (UTF-8, then '
+            '%%-escaping): a conforming server decodes it to %r, which is '
+            'not the name in the body' % (
+                name, raw, urllib.parse.unquote(
+                    raw.encode('latin-1', 'replace').decode('utf-8',
+                                                            'replace'))),
+            detail)
 
 
 def judge_headers(ctx, req, body, detail):
@@ -202,6 +223,8 @@ def judge_headers(ctx, req, body, detail):
     if h.get('CIMOperation') != 'MethodCall':
         bad('CIMOperation', 'CIMOperation header is %r'
             % h.get('CIMOperation'))
+    judge_encoding(ctx, 'CIMMethod', h.get('CIMMethod'), detail)
+    judge_encoding(ctx, 'CIMObject', h.get('CIMObject'), detail)
     hm = unquote_header(h.get('CIMMethod', ''))
     if hm != mname:
         if ws_norm(hm) == mname:
